@@ -105,7 +105,7 @@ Definition enum_lines (pkg name : bytes) (vs : list (bytes * N)) : list line :=
 
 (* 6: service [full name; annotation strings; audience/default auth (always none: acceptCommands
       replaces the options a command declares)] [file; annotation kind; role]
-   7: method [name; input; output; path] [verb; state_query flag] *)
+   7: method [name; input; output; path; http body] [verb; state_query flag] *)
 Definition svc_lines (pkg : bytes) (file : N) (s : osvc) : list line :=
   let fp := file_pkg pkg file in
   let abs (n : bytes) := match n with 46 :: r => r | _ => fp ++ [46] ++ n end in
@@ -114,7 +114,10 @@ Definition svc_lines (pkg : bytes) (file : N) (s : osvc) : list line :=
    | SCommand en => (6, [fp ++ [46] ++ sv_name s; en; []; []], [file; 2; 0])
    | STopic tn role en => (6, [fp ++ [46] ++ sv_name s; tn; en; []], [file; 3; role])
    end)
-  :: map (fun m => (7, [mt_name m; abs (mt_in m); abs (mt_out m); mt_path m], [mt_verb m; mt_sq m]))
+  (* the http rule's body: "*" for every verb but GET (visitServiceMethodNode); none for topic methods *)
+  :: map (fun m => (7, [mt_name m; abs (mt_in m); abs (mt_out m); mt_path m;
+                        if (mt_verb m =? 0) || (mt_verb m =? 1) then [] else [42]],
+                       [mt_verb m; mt_sq m]))
          (sv_methods s).
 
 (* per file: messages, then enums, then services — the order of a FileDescriptorProto *)
